@@ -153,6 +153,30 @@ func robustInputs(bs *builtStream, rg *rng, level int) []robustInput {
 	}
 	ins = append(ins, robustInput{"garbage-with-sync", g2})
 	ins = append(ins, robustInput{"one-byte", []byte{0x47}}, robustInput{"193-bytes", append([]byte{0x47}, make([]byte, 192)...)})
+	// long units: n contiguous full packets of one PID between two unit starts (the reassembly buffer grows by large factors: 2 KB,
+	// 7 KB, 24 KB, 74 KB, in no particular order), as a PES-like unit, as garbage on the PAT PID and as an endless PES (no second start)
+	for _, n := range []int{130, 12, 400, 40} {
+		for _, pid := range []int{0x100, 0} {
+			var m []byte
+			cc := rg.intn(16)
+			for i := 0; i <= n; i++ {
+				p := make([]byte, 188)
+				p[0], p[1], p[2], p[3] = 0x47, byte(pid>>8), byte(pid), 0x10|byte((cc+i)%16)
+				if i == 0 || i == n {
+					p[1] |= 0x40
+				}
+				copy(p[4:], rg.bytes(184))
+				if i == 0 && pid != 0 {
+					p[4], p[5], p[6], p[7], p[8], p[9] = 0, 0, 1, 0xe0, 0, 0
+				}
+				if i == n && rg.boolean() {
+					break // the unit is only ended by the end of the input
+				}
+				m = append(m, p...)
+			}
+			ins = append(ins, robustInput{fmt.Sprintf("bigunit-%d-pid%d", n, pid), m})
+		}
+	}
 	return ins
 }
 
@@ -337,6 +361,9 @@ func runRobust(sc *streamScenario, rec *recorder, level int) {
 			for k := 0; k < 3; k++ {
 				cfgs = append(cfgs, all[rg.intn(len(all))])
 			}
+		}
+		if len(in.name) > 7 && in.name[:7] == "bigunit" {
+			cfgs = []robustCfg{{188, "bytes", "data"}, {-1, "bufio", "data"}, {188, "plain", "data"}}
 		}
 		if len(in.name) > 8 && in.name[:8] == "tidsweep" {
 			cfgs = []robustCfg{{188, "bytes", "data"}, {-1, "bytes", "data"}, {188, "bufio", "packet"}}
